@@ -90,6 +90,8 @@ def gen_values(rng, n, mult, dist):
 
 
 def arr(vals, dtype="float"):
+    if dtype in ("uint8", "uint16") and all(v.denominator == 1 and 0 <= v < 256 for v in vals):
+        return np.array([int(v) for v in vals], dtype=getattr(np, dtype))     # unsigned data: a sign flip must still give -v
     if dtype == "int" and all(v.denominator == 1 for v in vals):
         return np.array([int(v) for v in vals], dtype=np.int64)
     return np.array([float(v) for v in vals], dtype=float)
@@ -150,6 +152,12 @@ def cases(tier, rng, dist, focus=None):
         yield {"f": "one_sample", "x": [str(v) for v in vals[:n]], "y": [str(v) for v in vals[n:n + (n if rng.random() < 0.9 else n - 1)]] if paired else None,
                "stat": rng.choice(STAT1), "alt": rng.choice(ALTS), "reps": rng.randint(1, 5), "plus1": rng.random() < 0.5,
                "keep": rng.random() < 0.5, "num": rng.choice(["np", "py"]), "dtype": rng.choice(["float", "int"]),
+               "mode": rng.choice(["random"] * 4 + ["zero", "max"]), "aseed": rng.randint(0, 10**9)}
+    for _ in range(N // 6):
+        n = rng.randint(1, 6)
+        yield {"f": "one_sample", "x": [str(rng.randint(0, 9)) for _ in range(n)], "y": None,
+               "stat": rng.choice([s for s in STAT1 if s != "mean"]), "alt": rng.choice(ALTS), "reps": rng.randint(1, 5), "plus1": rng.random() < 0.5,
+               "keep": rng.random() < 0.5, "num": rng.choice(["np", "py"]), "dtype": rng.choice(["uint8", "uint16"]),
                "mode": rng.choice(["random"] * 4 + ["zero", "max"]), "aseed": rng.randint(0, 10**9)}
     for _ in range(N // 2):
         n = rng.randint(2, 6)
@@ -447,6 +455,21 @@ def run_prng(c):
     n = guarded(lambda: utils.get_prng(None)); g1 = global_state()
     out["none_is_sha"] = n[0] == "ok" and isinstance(n[1], SHA256)
     out["none_draws_from_global"] = g0 != g1
+    # the helper functions take the same kinds of seed: a plain seed and a fresh SHA256(seed) are interchangeable,
+    # a plain seed is reproducible, a RandomState in the same state replays
+    import random as _r
+    rr = _r.Random(seed_int(s))
+    x = np.array([rr.randint(0, 9) for _ in range(6)], dtype=float); g = np.array([0, 1, 0, 1, 1, 2])
+    m = np.array([[rr.randint(0, 9) for _ in range(4)] for _ in range(3)])
+    helpers = {"permute": lambda sd: utils.permute(x, sd).tolist(),
+               "permute_within_groups": lambda sd: utils.permute_within_groups(x, g, sd).tolist(),
+               "permute_rows": lambda sd: np.array(utils.permute_rows(m, sd)).tolist()}
+    out["helpers"] = {}
+    hs = s if isinstance(s, int) else seed_int(s)      # the helpers document {None, int, generator instance} only
+    out["helper_seed"] = hs
+    for name, f in helpers.items():
+        out["helpers"][name] = [list(guarded(lambda: f(hs))), list(guarded(lambda: f(hs))), list(guarded(lambda: f(SHA256(hs)))),
+                                list(guarded(lambda: f(np.random.RandomState(seed_int(s))))), list(guarded(lambda: f(np.random.RandomState(seed_int(s)))))]
     return out
 
 
@@ -455,6 +478,15 @@ def oracle_prng(c, o):
     if bad:
         cls = "get_prng:global-rng" if bad == ["seeded_global_same"] else "get_prng:int-vs-sha256" if "same_stream" in bad else "get_prng:contract"
         return {"why": f"get_prng({c['seed']!r}): contract violated: {bad}", "cls": cls}
+    for name, (a1, a2, sh, r1, r2) in o.get("helpers", {}).items():
+        if a1[0] != "ok" or sh[0] != "ok" or r1[0] != "ok":
+            return {"why": f"{name} raised with seed {o.get('helper_seed')!r}: {a1[:2]} {sh[:2]} {r1[:2]}", "cls": f"{name}:raises"}
+        if a1 != a2:
+            return {"why": f"{name}(seed={o.get('helper_seed')!r}) twice: {a1[1]} then {a2[1]}", "cls": f"{name}:irreproducible"}
+        if a1 != sh:
+            return {"why": f"{name}: seed {o.get('helper_seed')!r} gives {a1[1]} but a fresh SHA256 generator with that seed gives {sh[1]}", "cls": f"{name}:int-vs-sha256"}
+        if r1 != r2:
+            return {"why": f"{name}: two RandomState generators in the same state give {r1[1]} and {r2[1]}", "cls": f"{name}:randomstate-replay"}
     if any(b != ["exc", "ValueError"] for b in o["bad"]):
         return {"why": f"get_prng accepted an object that cannot seed a generator (list / dict / object()): {o['bad']}", "cls": "get_prng:contract"}
     return None
